@@ -194,6 +194,39 @@ Theorem C19_token_value_nonneg : forall t v, ctok_ok_b t = true -> ctok_val t = 
 Proof. exact ctok_val_nonneg. Qed.
 Print Assumptions C19_token_value_nonneg.
 
+(** ---- THE ACCEPTED LANGUAGE, exactly (both directions, all strings): a string is accepted with a closed
+    range (c, a, b) iff it is  n0 ":" w1 COORD w2 "-" w3 COORD junk tail  with n0 colon-free, strip n0 = c
+    non-empty, w* blanks, the tokens valued a <= b, junk colon-free text that cannot extend the second token
+    ([munch_end]: maximal munch) and tail empty or starting with ':'.  Everything else is refused or falls
+    under the open-end / bare-name forms below. *)
+Theorem C19_region_language_closed : forall s c a b,
+  parse_region_string s = Some (c, Some a, Some b) <->
+  exists n0 w1 t1 w2 w3 t2 junk tail,
+    s = n0 ++ c_colon :: (w1 ++ ctok_str t1 ++ w2 ++ c_hyphen :: w3 ++ ctok_str t2 ++ junk) ++ tail /\
+    forallb notcolon n0 = true /\ strip n0 = c /\ c <> [] /\
+    forallb is_blank w1 = true /\ forallb is_blank w2 = true /\ forallb is_blank w3 = true /\
+    ctok_ok_b t1 = true /\ ctok_ok_b t2 = true /\
+    forallb notcolon junk = true /\ munch_end t2 junk /\ colon_tail tail /\
+    ctok_val t1 = Some a /\ ctok_val t2 = Some b /\ a <= b.
+Proof. exact region_language_closed. Qed.
+Print Assumptions C19_region_language_closed.
+
+Theorem C19_region_language_open : forall s c a,
+  parse_region_string s = Some (c, Some a, None) <->
+  exists n0 w1 t1 w2 nl tail,
+    s = n0 ++ c_colon :: (w1 ++ ctok_str t1 ++ w2 ++ c_hyphen :: nl) ++ tail /\
+    forallb notcolon n0 = true /\ strip n0 = c /\ c <> [] /\
+    forallb is_blank w1 = true /\ forallb is_blank w2 = true /\ forallb is_newline nl = true /\
+    ctok_ok_b t1 = true /\ colon_tail tail /\ ctok_val t1 = Some a.
+Proof. exact region_language_open. Qed.
+Print Assumptions C19_region_language_open.
+
+Theorem C19_region_language_bare : forall s c,
+  parse_region_string s = Some (c, None, None) <->
+  forallb notcolon s = true /\ strip s = c /\ c <> [].
+Proof. exact region_language_bare. Qed.
+Print Assumptions C19_region_language_bare.
+
 (** ---- "or are refused", for ALL strings: whatever parse_region_string accepts is a non-empty colon-free
     name without blanks at its ends and either no coordinates or 0 <= start (<= end) *)
 Theorem C19_parse_region_string_sound : forall s c oa ob,
